@@ -852,4 +852,11 @@ class SecureHomeKitConnection(HomeKitConnection):
         logger.debug("Secure connection to %s:%s established", self.connected_host, self.port)
 
         if self.owner:
-            await self.owner.connection_made(True)
+            try:
+                await self.owner.connection_made(True)
+            except BaseException:
+                # The attempt counts as failed and will be retried, do not
+                # leave this connection behind: the retry would replace it
+                # without closing it.
+                self._drop_transport()
+                raise
